@@ -43,7 +43,7 @@ def labelJson (cfg : Cfg) : Label → List (String × Json)
 
 def pcName : PC → String
   | .idle => "idle" | .create => "create" | .closing => "closing" | .stat => "stat"
-  | .resetTimer => "resetTimer" | .check => "check" | .tkRename => "tkRename" | .tkUnlink => "tkUnlink"
+  | .resetTimer => "resetTimer" | .check => "check" | .tkRename => "tkRename" | .tkUnlink => "tkUnlink" | .tkRestart => "tkRestart"
   | .sleep => "sleep" | .crit => "crit" | .relRename => "relRename" | .relUnlink => "relUnlink"
 
 def stateJson (st : St) : List (String × Json) :=
@@ -72,7 +72,8 @@ def scenarioJson (s : Scenario) : Json :=
     ("holders", Json.arr ((liveHolders s.final).map natJ).toArray), ("safe", Json.bool s.safe)]
 
 def scenarios : List (String × Scenario) :=
-  [("f13Open", f13Open), ("f13Symlink", f13Symlink), ("symlinkStale", symlinkStale),
+  [("f13Open", f13Open), ("f13Symlink", f13Symlink), ("f13SymlinkSequential", f13SymlinkSequential),
+   ("symlinkAfterTakeover", symlinkAfterTakeover), ("symlinkHandover", symlinkHandover),
    ("stalledWaiter", stalledWaiter), ("soloTakeoverOpen", soloTakeoverOpen),
    ("soloTakeoverSymlink", soloTakeoverSymlink)]
 
